@@ -1,4 +1,4 @@
-use super::swift_utils::{parse_bic, parse_length_range, parse_max_length, parse_swift_chars};
+use super::swift_utils::{parse_bic, parse_length_range, parse_swift_chars};
 use crate::errors::ParseError;
 use crate::traits::SwiftField;
 use serde::{Deserialize, Serialize};
@@ -133,7 +133,7 @@ impl SwiftField for Field25P {
         }
 
         // Parse account (first line, up to 35 characters)
-        let account = parse_max_length(lines[0], 35, "Field 25P account")?;
+        let account = parse_length_range(lines[0], 1, 35, "Field 25P account")?;
         parse_swift_chars(&account, "Field 25P account")?;
 
         // Parse BIC (second line if present, otherwise might be concatenated)
@@ -158,7 +158,7 @@ impl SwiftField for Field25P {
                     // Reparse account without BIC
                     let account_part = &input[..input.len() - 11];
                     return Ok(Field25P {
-                        account: parse_max_length(account_part, 35, "Field 25P account")?,
+                        account: parse_length_range(account_part, 1, 35, "Field 25P account")?,
                         bic,
                     });
                 }
@@ -170,7 +170,7 @@ impl SwiftField for Field25P {
                     // Reparse account without BIC
                     let account_part = &input[..input.len() - 8];
                     return Ok(Field25P {
-                        account: parse_max_length(account_part, 35, "Field 25P account")?,
+                        account: parse_length_range(account_part, 1, 35, "Field 25P account")?,
                         bic,
                     });
                 }
